@@ -25,8 +25,9 @@ def everything_is_wrapped_by_one_bucket(ctx):
         ctx.ob(f, c, ok, 'the bucket must be created once per manager with the configured max_bandwidth')
     mi = ctx.func('manager.TransferManager.__init__')
     lims = [v for fn, v in ctx.cls('manager.TransferManager').init_attrs.get('_bandwidth_limiter', []) if fn is mi and isinstance(v, ast.Call)]
-    ok = len(lims) == 1 and norm(lims[0].func) == 'BandwidthLimiter' and lims[0].args and isinstance(lims[0].args[0], ast.Name) and \
-        any(isinstance(v, ast.Call) and norm(v.func) == 'LeakyBucket' for _, v in q.local_defs(mi, lims[0].args[0].id))
+    arg0 = q.resolve_local(mi, lims[0].args[0]) if len(lims) == 1 and lims[0].args else None
+    ok = len(lims) == 1 and norm(lims[0].func) == 'BandwidthLimiter' and isinstance(arg0, ast.Call) and norm(arg0.func) == 'LeakyBucket' \
+        and any(arg0 is c for _, c in sites)
     ctx.ob(mi, 'self._bandwidth_limiter = BandwidthLimiter(<that bucket>)', ok, 'the manager-wide limiter must wrap the bucket')
     for mname in ('upload', 'download'):
         m = ctx.func(f'manager.TransferManager.{mname}')
